@@ -138,7 +138,9 @@ fn gen(seed: u64, idx: u64, _tier: Tier) -> Plan {
         plan.world.cost_scale = *rng.pick(&[1000u64, 10_000, 20_000]);
         plan.world.latency_jitter_us = *rng.pick(&[0u64, 20]);
         for _ in 0..others {
-            plan.step(t0 + rng.below(40), Action::Send { sock: rng.below(64) as u32, req: valid_spec(&mut rng, &mut ctr) });
+            // (one competing request in sixteen comes from source port 0: it can be batched but not answered)
+            let sock = if rng.chance(1, 16) { 40_000 + rng.below(4) as u32 } else { rng.below(64) as u32 };
+            plan.step(t0 + rng.below(40), Action::Send { sock, req: valid_spec(&mut rng, &mut ctr) });
         }
         let args = client_args(&mut rng, 2002, proto, if with_key { Some(&pk) } else { None }, n, 3);
         plan.step(t0, Action::RunClient { argv: args });
